@@ -111,7 +111,7 @@ func (e *Engine) reportKind(kind, id string, neg *Term) {
 	e.found[v.key()] = v
 }
 
-func (e *Engine) resetPath(prefix []int) {
+func (e *Engine) resetPath(prefix []Decision) {
 	e.prefix = prefix
 	e.trace = nil
 	e.pc = nil
@@ -143,7 +143,7 @@ func (e *Engine) resetPath(prefix []int) {
 	e.solver.Reset()
 }
 
-func (e *Engine) runPath(entry *ssa.Function, prefix []int) (end pathEnd) {
+func (e *Engine) runPath(entry *ssa.Function, prefix []Decision) (end pathEnd) {
 	e.resetPath(prefix)
 	defer func() {
 		if r := recover(); r != nil {
@@ -396,7 +396,7 @@ func main() {
 	}
 
 	var mu sync.Mutex
-	queue := [][]int{{}}
+	queue := [][]Decision{{}}
 	active := 0
 	cond := sync.NewCond(&mu)
 	t1 := time.Now()
